@@ -112,7 +112,7 @@ def _k3():
         ('add', 'la'), ('add', 'lb'), ('add', 'fill'), ('add', 'mid'),
         ('rm', 0), ('rm', 1),
         ('down', 's0'), ('up', 's0'), ('down', 's2'), ('up', 's2'),
-        ('srm', 's1'), ('sadd', 's1', 0),
+        ('srm', 's1'), ('sadd', 's1', 0), ('rld',),
     )
     cfg['probes'] = [
         {'demand': [3, 3, 3], 'aff': 'lim', 'limits': lim, 'rank': 100},
